@@ -332,7 +332,8 @@ func TestC06Concurrent(t *testing.T) {
 		wg.Wait()
 		for _, p := range problems {
 			if p != "" {
-				t.Fatalf("C06 concurrent %+v, %d callers x %d steps: %s", cfg, callers, steps, p)
+				hp := rec.History("TestC06Concurrent", map[string]interface{}{"pool_config": fmt.Sprintf("%+v", cfg), "callers": callers, "problem": p})
+				t.Fatalf("C06 concurrent %+v, %d callers x %d steps: %s (saved: %s)", cfg, callers, steps, p, hp)
 			}
 		}
 		// non-triviality: a batch window on one connection carried requests of >= 2 callers
